@@ -167,6 +167,12 @@ class Assembly:
         body, c = X.r12_exec_asserts(body); log.append(('R12 exec-assert', c))
         body, c = X.r8_opaque_text(body); log.append(('R8 opaque-text/panic-args', c))
         body, c = X.r11_split_or_guard(body); log.append(('R11 or-pattern/guard split', c))
+        # structure of the ORIGINAL body (before the logged substitutions): a changed number of loops / closures is exit 2
+        nl, nc = X.count_loops(body), X.count_closures(body)
+        if 'loops' in a and int(a['loops']) != nl:
+            raise Undecided('fn %s: expected %s loops, found %d' % (a['name'], a['loops'], nl))
+        if 'closures' in a and int(a['closures']) != nc:
+            raise Undecided('fn %s: expected %s closures, found %d' % (a['name'], a['closures'], nc))
         # explicit, logged token substitutions (R4 path resolution etc.)
         for sub in sec['subs']:
             body, c = _apply_sub(sub, body, a['name'])
@@ -194,11 +200,6 @@ class Assembly:
         if a.get('vis') == 'drop':
             sig = re.sub(r'^\s*pub(\([a-z]+\))?\s+', '', sig)
         # loops / closures
-        nl, nc = X.count_loops(body), X.count_closures(body)
-        if 'loops' in a and int(a['loops']) != nl:
-            raise Undecided('fn %s: expected %s loops, found %d' % (a['name'], a['loops'], nl))
-        if 'closures' in a and int(a['closures']) != nc:
-            raise Undecided('fn %s: expected %s closures, found %d' % (a['name'], a['closures'], nc))
         body = X.splice_closures(body, {k: '\n'.join(v) for k, v in sec['closures'].items()})
         body = X.splice_loops(body, {k: '\n'.join(v) for k, v in sec['loops'].items()})
         spec = '\n'.join(sec['spec']).rstrip()
